@@ -10,6 +10,9 @@ from typing import Mapping
 from typing import Optional
 
 from .span import Span
+from .token import TOKEN_CONTENT
+from .token import TOKEN_ILLEGAL
+from .token import TOKEN_OUTPUT
 from .token import TOKEN_TAG
 
 if TYPE_CHECKING:
@@ -120,9 +123,14 @@ class TagAnalysis:
             tag.name for tag in env.tags.values() if tag.block
         }
 
-        # Registered tags. "break" and "continue" are a special case.
+        # Registered tags. "break" and "continue" are a special case. Template content,
+        # output statements and illegal tags are registered under the names of their
+        # token kinds, which are not tag names that markup can use.
         registered_tags = {
-            name for name in env.tags if name not in ("break", "continue")
+            name
+            for name in env.tags
+            if name
+            not in ("break", "continue", TOKEN_CONTENT, TOKEN_OUTPUT, TOKEN_ILLEGAL)
         }
 
         # Registered inline tags. We use this to find erroneous "end" tags.
